@@ -158,7 +158,7 @@ static std::string gen_urlencoded() {
     static const char *T[] = {"a", "b1", "=", "&", "%41", "%", "%4", "+", "%u0041", "%00", "xyz", "%2", "&&", "=="};
     std::string s; int n = rcx::sized(1, 14); for (int i = 0; i < n; i++) s += T[rcx::range(0, 13)]; return s;
 }
-struct BodyCase { int pers; std::string rq, rs; size_t rq_body_at, rs_body_at; std::string kind; };
+struct BodyCase { int pers; std::string rq, rs; size_t rq_body_at, rs_body_at; std::string kind; bool big = false; bool restart_expected = false; /* zlib-wrapped "deflate", truncated streams, trailing garbage: the only shapes for which a decompressor restart (T3, known finding D7) is normal */ };
 static std::string frame(const std::string &body, bool chunked, const std::string &extra_headers, std::string &head) {
     if (!chunked) { head += extra_headers + "Content-Length: " + std::to_string(body.size()) + "\r\n\r\n"; return body; }
     head += extra_headers + "Transfer-Encoding: chunked\r\n\r\n"; std::string w; size_t p = 0;
@@ -171,9 +171,10 @@ static BodyCase gen_body_case() {
     std::string qx, sx;
     if (k == 0) { std::string ct; qb = gen_multipart(ct); qx = "Content-Type: " + ct + "\r\n"; c.kind = "multipart_request"; }
     else if (k == 1) { qb = gen_urlencoded(); qx = "Content-Type: application/x-www-form-urlencoded\r\n"; c.kind = "urlencoded_request"; }
-    else { static const int WB[] = {31, 15, -15}; int w = rcx::range(0, 2); std::string plain; int n = rcx::sized(0, 30); for (int i = 0; i < n; i++) plain += rcx::chance(1, 3) ? std::string((size_t)rcx::range(1, 40), (char)('a' + rcx::range(0, 3))) : std::string(1, (char)rcx::range(0, 255));
-        sb = zpack(plain, WB[w]); if (rcx::chance(1, 6) && !sb.empty()) sb.resize(sb.size() - (size_t)rcx::range(0, (int)std::min<size_t>(8, sb.size()))); // possibly truncated stream
-        if (rcx::chance(1, 6)) sb += "trailing-garbage";
+    else { static const int WB[] = {31, 15, -15}; int w = rcx::range(0, 2); std::string plain; int n = rcx::sized(0, 30); bool big = rcx::chance(1, 8); if (big) { n = 0; int m = 8192 + rcx::range(1, 300); uint64_t x = (uint64_t)rcx::range(1, 1 << 30); for (int i = 0; i < m; i++) { x = vc::mix(x + i); plain += (char)(x & 0xff); } c.big = true; } // incompressible, just over one 8 KiB output buffer
+        for (int i = 0; i < n; i++) plain += rcx::chance(1, 3) ? std::string((size_t)rcx::range(1, 40), (char)('a' + rcx::range(0, 3))) : std::string(1, (char)rcx::range(0, 255));
+        sb = zpack(plain, WB[w]); c.restart_expected = w == 1; if (rcx::chance(1, 6) && !sb.empty()) { sb.resize(sb.size() - (size_t)rcx::range(0, (int)std::min<size_t>(8, sb.size()))); c.restart_expected = true; } // possibly truncated stream
+        if (rcx::chance(1, 6)) { sb += "trailing-garbage"; c.restart_expected = true; }
         sx = std::string("Content-Encoding: ") + (w == 0 ? (rcx::coin() ? "gzip" : "x-gzip") : "deflate") + "\r\n"; qb = ""; c.kind = w == 0 ? "gzip_response" : w == 1 ? "zlib_deflate_response" : "raw_deflate_response"; }
     std::string qw = frame(qb, rcx::chance(1, 3), qx, qh), sw = frame(sb, rcx::chance(1, 3), sx, sh);
     c.rq_body_at = qh.size(); c.rs_body_at = sh.size(); c.rq = qh + qw; c.rs = sh + sw;
@@ -190,12 +191,14 @@ static void campaign_bodies() {
         auto one = [&](const std::vector<size_t> &qc, const std::vector<size_t> &sc) -> std::optional<rcx::Fail> {
             auto d = check_one(b.pers, b.rq, b.rs, qc, sc, &ref, &refr);
             if (counting) { g_stats.evaluations++; g_stats.cls("chunkings"); }
+            if (!b.restart_expected) { size_t t = d.first.find("+T3"); if (t != std::string::npos) d.first.erase(t, 3); } // a valid gzip / raw deflate stream never restarts: not attributable to D7
             if (!d.first.empty()) { std::string sig = "C03:" + d.first; if (A.is_known(sig)) { if (counting) g_stats.attributed[sig]++; return {}; } return rcx::Fail{sig, case_text(b.pers, b.rq, b.rs, qc, sc), d.second}; }
             return {};
         };
         bool rqside = b.kind.find("request") != std::string::npos;
         const std::string &w = rqside ? b.rq : b.rs; size_t from = rqside ? b.rq_body_at : b.rs_body_at;
         for (size_t c = from > 2 ? from - 2 : 1; c < w.size() && c < from + 400; c++) { if (auto f = rqside ? one({c}, {}) : one({}, {c})) return f; if (counting) { g_stats.nt(vc::fnv1a(w, c + 200000)); g_stats.cls("cut_inside_parsed_body"); } }
+        if (b.big && !rqside) for (size_t c = from + 8192 - 30; c < from + 8192 + 60 && c < w.size(); c++) { if (auto f = one({}, {c})) return f; if (counting) g_stats.cls("cut_where_inflate_output_buffer_fills"); } // the call's input can run out exactly when the decoder's buffer is full
         { std::vector<size_t> all; for (size_t c = 1; c < w.size() && c < 4000; c++) all.push_back(c); if (auto f = rqside ? one(all, {}) : one({}, all)) return f; }
         for (int k = 0; k < 6; k++) { std::vector<size_t> cs; int n = rcx::range(2, 6); for (int i = 0; i < n && w.size() > 1; i++) cs.push_back((size_t)rcx::range(1, (int)w.size() - 1)); std::sort(cs.begin(), cs.end()); if (auto f = rqside ? one(cs, {}) : one({}, cs)) return f; }
         if (counting) g_stats.sample_sparse(case_text(b.pers, b.rq, b.rs, {}, {}), g_stats.evaluations);
